@@ -1,7 +1,7 @@
 """E1 - CrossHair driver: obligations -> cells -> one process per condition -> verdicts -> replay."""
 import ast, json, os, re, subprocess, time, textwrap
 from concurrent.futures import ThreadPoolExecutor
-from .common import Result, scratch, sub_env, PY, NCPU, open_findings, write_replay
+from .common import Result, scratch, sub_env, PY, NCPU, open_findings, write_replay, VERIF
 
 
 class Ob(object):
@@ -153,7 +153,7 @@ def _run_worker(path, timeout, per_path=None):
     if per_path:
         cmd.append(str(per_path))
     try:
-        p = subprocess.run(cmd, cwd='/verif', env=sub_env(), capture_output=True, text=True,
+        p = subprocess.run(cmd, cwd=VERIF, env=sub_env(), capture_output=True, text=True,
                            timeout=timeout * 1.6 + 60)
         line = p.stdout.strip().splitlines()[-1] if p.stdout.strip() else ''
         try:
@@ -170,7 +170,7 @@ def _run_worker(path, timeout, per_path=None):
 def replay(modname, fn, post, raises, argsrc, confirm=None):
     cmd = [PY, '-m', 'vlib.replay_worker', modname, fn, post, ','.join(raises), argsrc, confirm or '']
     try:
-        p = subprocess.run(cmd, cwd='/verif', env=sub_env(), capture_output=True, text=True, timeout=300)
+        p = subprocess.run(cmd, cwd=VERIF, env=sub_env(), capture_output=True, text=True, timeout=300)
         return json.loads(p.stdout.strip().splitlines()[-1])
     except Exception as e:
         return {'violates': False, 'how': 'replay failed: %r' % (e,), 'error': True}
@@ -182,6 +182,9 @@ def run_obligations(prop, modname, obs, tier='quick', label='E1'):
     d = scratch()
     tasks = []
     n = 0
+    only = os.environ.get('VERIF_TRIAGE_ONLY')   # development aid (tools/triage.sh): run a subset of the obligations
+    if only and os.environ.get('VERIF_TRIAGE_REPO'):
+        obs = [ob for ob in obs if ob.name in only.split(',')]
     for ob in obs:
         kfs = open_findings(prop, ob.name)
         assert not (kfs and ob.packed), 'known-finding predicates are not supported on packed obligations'
